@@ -121,24 +121,32 @@ def install_live(get_ctx):
     orig3, origl = Merge3Merger._three_way, Merge3Merger._lca_multi_way
     _installed.update(get_ctx=get_ctx, orig3=orig3, origl=origl)
 
+    busy = [False]  # the originals look Merge3Merger._three_way up at run time = our wrapper: no re-entrancy
+
     def three_way(base, other, this):
         r = orig3(base, other, this)
-        c = _installed["get_ctx"]()
+        c = None if busy[0] else _installed["get_ctx"]()
         if c is not None:
+            busy[0] = True
             try:
                 laws(_LiveCtx(c), orig3, origl, base, (), other, this, True)
             except Exception:
                 pass
+            finally:
+                busy[0] = False
         return r
 
     def lca_multi_way(bases, other, this, allow_overriding_lca=True):
         r = origl(bases, other, this, allow_overriding_lca=allow_overriding_lca)
-        c = _installed["get_ctx"]()
+        c = None if busy[0] else _installed["get_ctx"]()
         if c is not None:
+            busy[0] = True
             try:
                 laws(_LiveCtx(c), orig3, origl, bases[0], tuple(bases[1]), other, this, allow_overriding_lca)
             except Exception:
                 pass
+            finally:
+                busy[0] = False
         return r
 
     Merge3Merger._three_way = staticmethod(three_way)
